@@ -1,5 +1,6 @@
 """C09 — aggregates equal a fold over the selection: merge tables and row-filter parity only."""
 from .util import *
+import json
 
 EXPLANATION = """
 Claimed narrowly. Decides table/diagonal clauses and row-filter parity; does NOT decide numeric equality of metrics or bucket alignment.
@@ -15,9 +16,15 @@ row-at-a-time fold whenever NULLs are not aligned with the chunking).
 through the same bucketing as the key (GroupKey::from_row_with_indices, or time_bucketing::bucket_of directly) - a probe built from a cheaper stand-in for the bucket (UTC hour / day slots) lets a row
 inherit the key, and so the bucket, of an earlier row whenever the configured calendar does not coincide with UTC.
 Borrowed: C07.h (bitmap byte / bit index agreement: the SIMD TOTAL / AVG path reads validity through get_i64_slice_with_validity).
+(f) LIMIT on an aggregate caps groups, never input events: MemTableSource::determine_limit and SegmentQueryRunner::determine_eval_limit (the per-source row limits, upstream of the AggregateOp) hand out
+a bound only on paths where plan.aggregate_plan is None.
+(g) COUNT UNIQUE reads a value through every view a column can have: in CountUnique::update the "missing value" fallback (insert of the empty string) is reached only after BOTH get_str_at and get_i64_at
+returned None (an all-integer batch is a typed i64 column without a string view).
+(h) every event is in exactly one group: the coordinator (AggregateStreamMerger::emit_merged_groups) must not discard groups - today it drops every group with an empty key component, which is how the
+sink spells a null / missing BY value, so group counts do not add up to COUNT.
 """
-FLOOR = 8
-REQUIRED = ["C09.a1", "C09.a2", "C09.a3", "C09.b", "C09.c", "C09.d", "C09.e", "C09/C07.h"]
+FLOOR = 11
+REQUIRED = ["C09.a1", "C09.a2", "C09.a3", "C09.b", "C09.c", "C09.d", "C09.e", "C09.f", "C09.g", "C09.h", "C09/C07.h"]
 
 
 def run(ctx):
@@ -250,3 +257,71 @@ def run(ctx):
             return [("probe-without-calendar-bucket", "the group-key cache is probed with a hash that is not computed through the calendar bucketing of the key (%s): rows of different calendar buckets can share a cache entry and inherit each other's bucket" % short, None)]
         return []
     ctx.run("C09.e", "K7 PROV", "AggregateSink::compute_group_key", "the group-key cache probe depends on the row's calendar bucket", e_)
+
+    def f_(inst):
+        bad = []
+        for nm in ("MemTableSource::determine_limit", "SegmentQueryRunner::determine_eval_limit"):
+            b = F.fn(nm)
+            tests = [c_ for c_ in b.find_calls(r"Option::is_some$|Option::is_none$") if any(".aggregate_plan" in [str(p_) for p_ in (l[2] if l[0] in ("param", "upvar") else (l[3] if l[0] == "call" else ()))] or ".aggregate_plan" in fmt_leaves({l}) for l in b.origins(c_.args[0]))]
+            if not tests:
+                # fall back: a borrow of a place ending in .aggregate_plan feeding the test
+                tests = [c_ for c_ in b.find_calls(r"Option::is_some$|Option::is_none$") if any(st.get("a") and st["a"][0] in wide_all(b, c_.args[0], depth=4) and ".aggregate_plan" in json.dumps(st.get("v", {})) for blk in b.blocks for st in blk["s"])]
+            if not tests:
+                bad.append(("source-limit-in-aggregate:%s" % nm, "%s never looks at plan.aggregate_plan: an aggregate query's sources stop after LIMIT (+OFFSET) events" % nm, None))
+                continue
+            t = tests[0]
+            noagg = bool_result_edge(b, t, t.nname.endswith("is_none"))
+            inst.sites.append("%s: test @ %s" % (nm, sp(b, t.bb)))
+            # every definition of the return value that is not Option::None sits behind the 'no aggregate' edge
+            for i in sorted(b.live_blocks()):
+                defs0 = [st for st in b.blocks[i]["s"] if st.get("a") == [0]]
+                tt = b.blocks[i]["t"]
+                is_call_def = tt.get("t") == "call" and tt.get("dest") == [0]
+                for st in defs0:
+                    v = st["v"]
+                    if v.get("r") == "agg" and v.get("var") == "None":
+                        continue
+                    if not any(b.dominates_edge(e_, i) for e_ in noagg):
+                        bad.append(("source-limit-in-aggregate:%s" % nm, "%s can return a row bound (%s) although the plan aggregates" % (nm, sp(b, i)), None))
+                if is_call_def and not any(b.dominates_edge(e_, i) for e_ in noagg):
+                    bad.append(("source-limit-in-aggregate:%s" % nm, "%s can return a row bound (%s) although the plan aggregates" % (nm, sp(b, i)), None))
+        return bad
+    ctx.run("C09.f", "K8 GUARD", "MemTableSource::determine_limit / SegmentQueryRunner::determine_eval_limit", "no per-source row limit under an aggregate", f_)
+
+    def g_(inst):
+        b = F.fn("CountUnique::update")
+        gs = b.find_calls(r"ColumnValues::get_str_at$")
+        gi = b.find_calls(r"ColumnValues::get_i64_at$")
+        inst.sites = [sp(b, c_.bb) for c_ in gs + gi]
+        if not gs:
+            raise AnchorMissing("get_str_at in CountUnique::update")
+        bad = []
+        empties = [c_ for c_ in b.find_calls(r"String::new$") if b.can_reach(gs[0].bb, c_.bb)]
+        if not empties:
+            inst.sites.append("no empty-string fallback")
+            return bad
+        if not gi:
+            return [("count-unique-misses-typed-column", "CountUnique::update only reads the string view of a column: every value of an all-integer batch is counted as the same empty string", None)]
+        none_s = variant_edge(b, gs[0], "None")
+        none_i = variant_edge(b, gi[0], "None")
+        for e_ in empties:
+            if not (any(b.dominates_edge(x, e_.bb) for x in none_s) and any(b.dominates_edge(x, e_.bb) for x in none_i)):
+                bad.append(("count-unique-fallback-early", "the empty-string fallback of CountUnique::update is reachable before both the string view and the i64 view were tried", None))
+        return bad
+    ctx.run("C09.g", "K1 DOM", "CountUnique::update", "COUNT UNIQUE reads typed integer columns", g_)
+
+    def h_(inst):
+        b = F.fn("AggregateStreamMerger::emit_merged_groups")
+        fam = [b] + [F.fn_exact(k) for k in F.find("^" + re.escape(b.key) + r"::\{closure")]
+        drops = [(B, c_) for B in fam for c_ in B.calls if not c_.cleanup and re.search(r"Vec::retain$|Iterator::filter$|Vec::retain_mut$|HashMap.*::retain$", c_.nname)]
+        inst.sites = ["%s @ %s" % (c_.nname.split("::")[-1], sp(B, c_.bb)) for B, c_ in drops]
+        bad = []
+        for B, c_ in drops:
+            # the predicate looks at the emptiness of key components
+            cds = [k for a_ in c_.args[1:] for k in F.find("^" + re.escape(b.key) + r"::\{closure") if True]
+            pred_bodies = [F.fn_exact(k) for k in set(cds)]
+            if any(x.find_calls(r"is_empty$") for x in pred_bodies):
+                bad.append(("null-group-dropped", "emit_merged_groups discards every group that has an empty key component (%s): events whose BY value is null or missing are in no group" % sp(B, c_.bb), None))
+                break
+        return bad
+    ctx.run("C09.h", "K4 EFFECT", "AggregateStreamMerger::emit_merged_groups", "no group is discarded on the way out", h_)
